@@ -727,6 +727,8 @@ func (in *Interp) lenOfKind(st *State, k *Kind, path string, call *ast.CallExpr)
 		ns.Guard = andGuard(in.guard(), s.Guard)
 		ns.Pos = call.Pos()
 		ns.Fn = s.Fn
+		in.shared.seq++
+		ns.Seq = in.shared.seq
 		root := p
 		if i := strings.IndexAny(p, ".["); i >= 0 {
 			root = p[:i]
@@ -904,6 +906,8 @@ func (in *Interp) marshalCall(st *State, f *types.Func, recv Val, call *ast.Call
 					ns.Path = p
 					ns.Guard = andGuard(in.guard(), s.Guard)
 					ns.Pos = call.Pos()
+					in.shared.seq++
+					ns.Seq = in.shared.seq
 					for i := in; i != nil; i = i.parent {
 						i.Stores = append(i.Stores, &ns)
 					}
@@ -914,6 +918,8 @@ func (in *Interp) marshalCall(st *State, f *types.Func, recv Val, call *ast.Call
 		l = LenCall(path, typ)
 	}
 	b := &BufObj{Origin: "enc", Src: path, SrcType: typ, Len: l, Extent: l, Pos: call.Pos(), Snap: map[string]*Term{}}
+	in.shared.seq++
+	b.Snap["#seq"] = Const(int64(in.shared.seq))
 	for k, v := range st.fields {
 		if strings.HasPrefix(k, path+".") {
 			if iv, ok := v.(IntV); ok {
